@@ -449,7 +449,7 @@ func VH_orderIdent(which int) {
 		got, _ := in.eval(&ast.Binary{Left: assign, Operator: tok(token.TokenType(ty), "op", 7), Right: readX, Line: 7}, env, false)
 		nerr := hvCountStderr()
 		want := specBinary(b, token.TokenType(ty), b)
-		checkResult("bin-", got, want, nerr)
+		checkResult("operand-order-", got, want, nerr)
 	case 1:
 		vpRecorderCalls = 0
 		in.eval(&ast.Call{Callee: &ast.Literal{Value: vpRecorder{}, Line: 7}, Paren: tok(token.RIGHT_PAREN, ")", 7), Arguments: []ast.Expr{assign, readX}}, env, false)
